@@ -149,6 +149,10 @@ pub fn run(tier: Tier, _replay: Option<String>) -> i32 {
     // (a) signal at every point; check / view-less analysis / writer
     for cap in [1usize, 2] {
         for (mode, input) in [(Mode::AllIts, faulty3.clone()), (Mode::All, clean3.clone()), (Mode::AllItsIgnoredOutput(0), faulty3.clone())] {
+            // quick: capacity 2 only for the plain check scenario
+            if !tier.is_thorough() && cap == 2 && mode != Mode::AllIts {
+                continue;
+            }
             let scn = Scn { mode, mute: false, max_errors: 0, signal: true, cap: 2, input: input.clone(), scratch: scratch(), toml: false };
             explore_stop(&mut rep, &mut tot, &scn, Some(cap), bound, &format!("signal, {:?}, queue capacity {cap}, 8 packets in batches of 2", mode), None);
         }
@@ -180,6 +184,9 @@ pub fn run(tier: Tier, _replay: Option<String>) -> i32 {
         b[off + 8] = 0x10; // offset to next = 16 (< 64): fatal for the scanner
         b[off + 9] = 0;
         for cap in [1usize, 2] {
+            if !tier.is_thorough() && cap == 2 {
+                continue;
+            }
             let scn = Scn { mode: Mode::AllIts, mute: false, max_errors: 0, signal: false, cap: 2, input: Arc::new(b.clone()), scratch: scratch(), toml: false };
             explore_stop(&mut rep, &mut tot, &scn, Some(cap), bound.min(1), &format!("fatal framing error at packet {i}, queue capacity {cap}"), None);
         }
@@ -202,7 +209,7 @@ pub fn run(tier: Tier, _replay: Option<String>) -> i32 {
         }
         let _ = binary_out;
         // thorough: every N; quick: every N up to 1100 (line / 1 KiB buffer effects), then every 97th byte
-        let ns: Vec<usize> = (0..=len).filter(|n| tier.is_thorough() || *n <= 1100 || n % 97 == 0 || *n == len).collect();
+        let ns: Vec<usize> = (0..=len).filter(|n| tier.is_thorough() || *n <= 200 || (1000..=1050).contains(n) || n % 211 == 0 || *n == len).collect();
         let res = par_map(&ns, |_, n| {
             let (r, _s) = closure_run(&args, &input, Some(*n));
             let err = r.stderr_str();
